@@ -33,7 +33,8 @@ from harness.common import HarnessError
 
 DRIVERS = ["drv_c26"]
 RULE = ("one case = one invocation of tools.compiler.main over a generated scratch library (2-4 directories, valid / "
-        "failing / syntactically broken files, duplicate stems, blockers in the output directory) with generated PATH "
+        "failing / syntactically broken files, duplicate stems, same-named but different files in different directories "
+        "(the second one broken or defining the requested model), blockers in the output directory) with generated PATH "
         "lists, 0-3 -m models, -t none|sympy|casadi, -O well/ill-formed, -o existing/missing/file, -v levels and "
         "argparse-level defects; non-trivial = the invocation passes argparse (so the tool's own counting logic is "
         "exercised); distinct = distinct (world files, argv)")
@@ -119,6 +120,20 @@ def gen_world(rng, wid):
         add("broken", "latin1")
     if rng.random() < 0.25:
         add("libB/attic", "bad")
+    # same file name in two directories, different content: the second one is broken, or defines another model
+    twins = []
+    for da, db, second in (("core", "draft", "bad"), ("core", "vendor", "other")):
+        n = name("T")
+        files["%s/%s.mo" % (da, n)] = ["good", MOD["good"].format(n=n, g="")]
+        models.setdefault(n, "good")
+        if second == "bad":
+            files["%s/%s.mo" % (db, n)] = [rng.choice(["bad", "bad2"]), MOD[rng.choice(["bad", "bad2"])].format(n=n, g="")]
+            twins.append({"a": "%s/%s.mo" % (da, n), "b": "%s/%s.mo" % (db, n), "second": "bad", "models": [n]})
+        else:
+            v = "V" + n
+            files["%s/%s.mo" % (db, n)] = ["good", MOD[rng.choice(["good", "uses"])].format(n=v, g=n)]
+            models.setdefault(v, "good")
+            twins.append({"a": "%s/%s.mo" % (da, n), "b": "%s/%s.mo" % (db, n), "second": "other", "models": [v, n]})
     dirs = ["empty", "out"]
     blockers = []
     if rng.random() < 0.5:
@@ -126,7 +141,7 @@ def gen_world(rng, wid):
         blockers.append(m)
         dirs.append("out/%s.py" % m)
     return {"id": wid, "files": files, "dirs": dirs, "other": {"empty/notes.txt": "no models here\n", "README.txt": "x\n"},
-            "models": models, "blockers": blockers}
+            "models": models, "blockers": blockers, "twins": twins}
 
 
 def materialise(ctx, world):
@@ -249,7 +264,7 @@ def gen_invocation(rng, world, stream):
     inv["paths"] = paths
     kind = stream
     if stream == "main":
-        kind = rng.choice(["models"] * 6 + ["parse"] * 2 + ["usage"] * 3 + ["argparse"] * 2 + ["nofiles"])
+        kind = rng.choice(["models"] * 6 + ["parse"] * 2 + ["usage"] * 3 + ["argparse"] * 2 + ["nofiles"] + ["twins"] * 2)
     inv["kind"] = kind
     # ---- target and models
     inv["target"] = rng.choice([None, None, "sympy", "casadi", "casadi"])
@@ -308,6 +323,23 @@ def gen_invocation(rng, world, stream):
                 inv["paths"].insert(rng.randint(0, len(inv["paths"])), cand)
         if has_attic and rng.random() < 0.5 and not any(p.startswith("libB") for p in inv["paths"]):
             inv["paths"].append("libB")
+    elif kind == "twins" and world.get("twins"):
+        # two different files with the same name: as file arguments or through their directories, either order
+        tw = rng.choice(world["twins"])
+        a, b = tw["a"], tw["b"]
+        if rng.random() < 0.5:
+            a, b = os.path.dirname(a), os.path.dirname(b)
+        elif rng.random() < 0.3:
+            b = os.path.dirname(b)
+        pair = [a, b] if rng.random() < 0.7 else [b, a]
+        extra = [rng.choice(["libA", "libA/sub"])] if rng.random() < 0.3 else []
+        inv["paths"] = extra + pair if rng.random() < 0.5 else pair + extra
+        inv["target"] = rng.choice([None, None, None, "sympy", "casadi"])
+        inv["outdir"] = "out" if inv["target"] == "sympy" else rng.choice(["out", None])
+        nm2 = rng.choice([0, 1, 1, 2]) if tw["second"] == "other" else rng.choice([0, 0, 1])
+        if inv["target"]:
+            nm2 = max(nm2, 1)
+        inv["models"] = [rng.choice(tw["models"]) if rng.random() < 0.8 else tw["models"][0] for _ in range(nm2)]
     elif kind == "nofiles":
         inv["paths"] = rng.choice([["empty"], ["README.txt"], ["empty", "empty/notes.txt"], ["out"]])
         if inv["target"] == "casadi" or rng.random() < 0.5:
